@@ -36,6 +36,8 @@ NP_OF = {
     'C03': [('StateTrajHS', ['_estimate_markov_model']), ('MsmNorm', ['row_normalize_matrix'])],
     'C09': [('MsmTests', ['_calc_times'])],
     'C19': [('PlotCkTest', ['_split_array'])],
+    'C07': [('MsmCummat', ['_get_cummat'])],
+    'C08': [('MsmCummat', ['_get_cummat'])],
 }
 for _pid, _mods in NP_OF.items():
     KERNELS_OF.setdefault(_pid, [])
@@ -43,7 +45,7 @@ for _pid, _mods in NP_OF.items():
 SOURCE_OF = {'MsmMsm': 'msm/msm.py', 'MdCorrections': 'md/corrections.py', 'MdTimescales': 'md/timescales.py',
              'MsmTimescales': 'msm/timescales.py', 'MdComparison': 'md/comparison.py', 'UtilsUtils': 'utils/_utils.py',
              'UtilsTests': 'utils/tests.py', 'MsmNorm': 'msm/msm.py', 'PlotCkTest': 'plot/_ck_test.py', 'MsmTests': 'msm/tests.py',
-             'StateTrajHS': 'statetraj.py'}
+             'StateTrajHS': 'statetraj.py', 'MsmCummat': 'msm/timescales.py'}
 ATOL = 1e-8
 G = 1 << 53
 
@@ -184,6 +186,24 @@ def gen_cases(module, kernel, rng, n):
             yield {'k': kernel, 'args': [arr, rng.choice([0, 1, 1, 2, 3, 4, 5, 6, 7, 12, 30])], 'mode': 'py'}
         elif module == 'MsmTests':
             yield {'k': kernel, 'args': [rng.choice([0, 1, 1, 2, 3, 4, 5, 7, 10, 25]), rng.randint(0, 80)], 'mode': 'py'}
+        elif module == 'MsmCummat':
+            import numpy as np
+            n = rng.randint(1, 6)
+            kind = rng.random()
+            if kind < 0.1:
+                m = [[0.0] + [0.1] * 10 + [0.0]] + [[1.0 if j == i else 0.0 for j in range(12)] for i in range(1, 12)]     # D3 row
+            else:
+                cnt = [[rng.choice([0, 0, 1, 1, 2, 3, 7, 50]) for _ in range(n)] for _ in range(n)]
+                if rng.random() < 0.3:
+                    cnt[rng.randrange(n)] = [0] * n
+                a_ = np.array(cnt, dtype=np.float64)
+                rs = a_.sum(axis=1, keepdims=True)
+                rs[rs == 0] = 1
+                m = (a_ / rs).tolist()
+                if kind > 0.93:
+                    m[rng.randrange(n)][rng.randrange(n)] = -0.25
+            table = [[[core.rat_str(v) for v in row], [int(i) for i in np.argsort(np.array(row, dtype=np.float64))]] for row in m]
+            yield {'k': kernel, 'args': [_ratmat(m)], 'floats': m, 'oracle': {'argsort': table}, 'mode': 'py'}
         elif module == 'StateTrajHS':
             nm = rng.randint(2, 6)
             na = rng.randint(1, min(nm, 4))
@@ -347,6 +367,23 @@ def real_one(module, case):
             return [int(v) for v in call(a[0], a[1])]
         if module == 'StateTrajHS':
             return [[core.rat_str(float(v)) for v in row] for row in case['_obj']._estimate_markov_model(case['_msm_i'])]
+        if module == 'MsmCummat':
+            # the function estimates its matrix from trajectories: feed the chosen matrix through a stub of the estimator
+            msm = np.array(case['floats'], dtype=np.float64)
+
+            class _Stub:
+                def __init__(self, *_a, **_k):
+                    pass
+
+                def estimate_markov_model(self, _lag):
+                    return msm.copy(), None
+            saved = mod.StateTraj
+            mod.StateTraj = _Stub
+            try:
+                cm, sp = call(None, 1)
+            finally:
+                mod.StateTraj = saved
+            return [[[core.rat_str(float(v)) for v in row] for row in cm], [[int(v) for v in row] for row in sp]]
         if module == 'MsmTimescales':
             cum = (np.array(case['floats'], dtype=np.float64), np.array(a[0][1], dtype=np.int64))
             rng_inject.inject([Fraction(q, G) for q in case['ks']] + [Fraction(1, 2)] * 4)
@@ -453,6 +490,19 @@ def same(case, real, gen):
         return a == b
     r, g = real['ok'], gen['ok']
     k = case['k']
+    if k == '_get_cummat':
+        if r[1] != g[1] or len(r[0]) != len(g[0]):
+            return False
+        for rr, gg in zip(r[0], g[0]):
+            if len(rr) != len(gg):
+                return False
+            for x, y in zip(rr, gg):
+                fx, fy = Fraction(x), Fraction(y)
+                if fy == 1 and fx != 1:
+                    return False          # a forced 1 must be exactly 1
+                if abs(fx - fy) > Fraction(1, 10 ** 14):
+                    return False
+        return True
     if k in ('row_normalize_matrix', '_estimate_markov_model') and case.get('np'):
         tol = Fraction(1, 10 ** 14) if k == 'row_normalize_matrix' else Fraction(1, 10 ** 8)
         if len(r) != len(g) or any(len(x) != len(y) for x, y in zip(r, g)):
